@@ -5,6 +5,7 @@ from __future__ import annotations
 import ast
 
 from ..astutil import inside, norm_cmp
+from ..tutil import normalise
 from ..cfg import CFG
 from ..core import AnalysisError, const_value
 from ..defuse import DefUse, Terms, show, walk_term
@@ -234,25 +235,43 @@ def _starting_labels(ctx, f, fit):
     prog = ctx.prog
     du = DefUse(prog, f)
     T = Terms(du)
-    rets = [n for n in ast.walk(f.node) if isinstance(n, ast.Return)]
-    ctx.require(len(rets) == 1 and isinstance(rets[0].value, ast.Tuple)
-                and len(rets[0].value.elts) == 4,
-                f"{f.qual}: expected 'return labels, count, name, direction'")
-    order = [ast.unparse(e) for e in rets[0].value.elts]
-    # Model.fit unpacks in the same order into start_labels, feat_pass,
-    # best_feat, desc
-    un = [n for n in ast.walk(fit.node) if isinstance(n, ast.Assign)
-          and isinstance(n.targets[0], ast.Tuple)
-          and "_get_starting_labels" in ast.unparse(n.value)]
-    ctx.require(len(un) == 1, f"{fit.qual}: unpacking of "
-                "_get_starting_labels not found")
-    tnames = [ast.unparse(e) for e in un[0].targets[0].elts]
-    ok = tnames[1:] == ["self.feat_pass", "self.best_feat", "self.desc"]
-    ctx.check(ok and order[1:] == ["feat_pass", "best_feat", "desc"],
-              "C07a-fit-unpacks-in-order", fit,
+    # Model.fit takes labels, count, feature name and direction from the
+    # matching positions of the result (the roles of the four positions are
+    # established per path below)
+    fdu = DefUse(prog, fit)
+    fT = Terms(fdu)
+    GSL = f.qual
+
+    def from_result(t):
+        """position i when t is item i of _get_starting_labels(...)"""
+        if t[0] == "item" and t[1][0] == "call" and t[1][1] == GSL:
+            return t[2]
+        return None
+
+    stored = {}
+    for (r, a_, v, st) in fdu.attr_stores:
+        if r == "self" and a_ in ("feat_pass", "best_feat", "desc"):
+            pos = from_result(fT.of(v))
+            if pos is None and isinstance(st, ast.Assign) and isinstance(
+                    st.targets[0], (ast.Tuple, ast.List)):
+                # (labels, self.feat_pass, ...) = _get_starting_labels(...)
+                vt = fT.of(st.value)
+                if vt[0] == "call" and vt[1] == GSL:
+                    for i, el in enumerate(st.targets[0].elts):
+                        if isinstance(el, ast.Attribute) and el.attr == a_ \
+                                and isinstance(el.value, ast.Name) and \
+                                el.value.id == "self":
+                            pos = i
+            stored.setdefault(a_, []).append((pos, st))
+    want_pos = {"feat_pass": 1, "best_feat": 2, "desc": 3}
+    ok = all(len(stored.get(a_, [])) == 1 and stored[a_][0][0] == i
+             for a_, i in want_pos.items())
+    ctx.check(ok, "C07a-fit-unpacks-in-order", fit,
               "Model.fit stores count, feature name and direction from the "
               "matching positions of _get_starting_labels' result",
-              f"returned {order}, unpacked into {tnames}", node=un[0])
+              "stored from positions "
+              f"{ {a_: [p_ for p_, _s in v] for a_, v in stored.items()} }; "
+              f"expected {want_pos}", node=fit.node)
     # one variant per path through the branches that set the result: the
     # labels, count, name and direction returned on a path are judged
     # together
@@ -266,10 +285,10 @@ def _starting_labels(ctx, f, fit):
         ctx.require(len(rs) == 1 and rs[0][0] == "tuple"
                     and len(rs[0][1]) == 4,
                     f"{f.qual}: a path does not return a 4-tuple")
-        lab, cnt, name, desc = rs[0][1]
+        lab, cnt, name, desc = (normalise(x) for x in rs[0][1])
         conds = []
         for test, outcome in v.conds:
-            t = vT.of(test)
+            t = normalise(vT.of(test))
             while t[0] == "un" and t[1] == "not":
                 t, outcome = t[2], not outcome
             conds.append(norm_cmp(t, outcome) or (t, outcome))
@@ -365,8 +384,8 @@ def _starting_labels(ctx, f, fit):
     # used position by position
     x = auto[0]
     items = [x["name"], x["cnt"], x["lab"], x["desc"]]
-    ok_a = all(t[0] == "item" and t[2] == i and t[1][0] == "mcall"
-               and t[1][2] == "_find_best_feature"
+    ok_a = all(t[0] in ("item", "sub") and t[2] in (i, ("const", i))
+               and t[1][0] == "mcall" and t[1][2] == "_find_best_feature"
                for i, t in enumerate(items)) and \
         len({t[1] for t in items}) == 1
     ctx.check(ok_a, "C07a-automatic-arm", f,
